@@ -262,6 +262,45 @@ func g5Simultaneous() []BashCase {
 	for _, k := range sortedStmtKeys(progs) {
 		cases = append(cases, BashCase{Key: "G5/" + k, Prog: SingleFile(progs[k])})
 	}
+	// every kind of right-hand side that reads a target assigned EARLIER in the same list: the old value counts.
+	// n (int), s (string), b (bool), xs ([]int) are targets; the reading expression sits in a later position.
+	readers := []struct {
+		name   string
+		target string // the later target receiving the reading expression
+		ttype  Type
+		e      Expr
+		first  string // the earlier target it reads
+	}{
+		{"itoa-of-int", "s", TString, Itoa{vr("n")}, "n"},
+		{"int-plus", "m", TInt, bin("+", vr("n"), il(100)), "n"},
+		{"group", "m", TInt, Group{vr("n")}, "n"},
+		{"negated-product", "m", TInt, bin("*", vr("n"), il(-1)), "n"},
+		{"comparison", "b", TBool, cmp("==", vr("n"), il(5)), "n"},
+		{"len-of-string", "m", TInt, Len{vr("s")}, "s"},
+		{"string-index", "t", TString, Index{"s", il(0)}, "s"},
+		{"substring", "t", TString, Substr{"s", il(0), il(2)}, "s"},
+		{"concat", "t", TString, bin("+", vr("s"), sl("!")), "s"},
+		{"string-compare", "b", TBool, cmp("==", vr("s"), sl("old")), "s"},
+		{"not", "c", TBool, Not{vr("b")}, "b"},
+		{"and", "c", TBool, logic("&&", vr("b"), bl(true)), "b"},
+		{"slice-index-by-target", "m", TInt, Index{"xs", vr("n")}, "n"},
+		{"call-arg", "m", TInt, call("idf", vr("n")), "n"},
+	}
+	newVal := map[string]Expr{"n": il(1), "s": sl("NEW"), "b": bl(false)}
+	oldDefs := []Stmt{fn("idf", []Param{{"p", TInt}}, []Type{TInt}, ret(vr("p"))), def("n", il(5)), def("s", sl("old")), def("b", bl(true)), def("xs", SliceLit{TInt, []Expr{il(10), il(11), il(12), il(13), il(14), il(15)}}), def("m", il(0)), def("t", sl("")), def("c", bl(false))}
+	for _, rd := range readers {
+		asg := Assign{[]string{rd.first, rd.target}, []Expr{newVal[rd.first], rd.e}}
+		show := pr(vr("n"), framed(vr("s")), vr("b"), vr("m"), framed(vr("t")), vr("c"))
+		top := append(append([]Stmt{}, oldDefs...), asg, show)
+		cases = append(cases, BashCase{Key: "G5/reader/" + rd.name + "/top", Prog: SingleFile(top)})
+		// inside a function, on the globals
+		inFn := append(append([]Stmt{}, oldDefs...), fn("step", nil, nil, asg), callS("step"), show)
+		cases = append(cases, BashCase{Key: "G5/reader/" + rd.name + "/func-globals", Prog: SingleFile(inFn)})
+		// three positions: the reader last, an unrelated value in between
+		asg3 := Assign{[]string{rd.first, "k", rd.target}, []Expr{newVal[rd.first], il(7), rd.e}}
+		top3 := append(append([]Stmt{}, oldDefs...), def("k", il(0)), asg3, show, pr(vr("k")))
+		cases = append(cases, BashCase{Key: "G5/reader/" + rd.name + "/three", Prog: SingleFile(top3)})
+	}
 	return cases
 }
 
